@@ -285,24 +285,69 @@ pub fn run_plan<T: HCfg>(plan: &Value, detail: u8, emit: &mut dyn FnMut(&Value))
 }
 
 /// Re-execute the steps of a recorded trace / a schedule (lines with results are fine: only the
-/// step fields are read).
+/// step fields are read).  Extra schedule features used by TLC-generated schedules:
+///  * step `{"a":"sync"}`: run the handshake to completion (polls + FIFO deliveries, each logged
+///    as its own step) and leave the network empty;
+///  * `linkcap` (in the schedule object): per-link in-flight capacity, the oldest packet is
+///    dropped on overflow (logged as explicit `drop` steps), as System.tla's Transmit does.
 pub fn run_schedule<T: HCfg>(
     cfg: &Value,
     steps: &[Value],
     detail: u8,
+    linkcap: Option<usize>,
     emit: &mut dyn FnMut(&Value),
 ) -> Result<(), String> {
     let mut w = World::<T>::new(cfg, detail)?;
     emit(&json!({"a":"cfg","cfg":w.cfg.clone()}));
+    let n = w.peers.len();
+    let enforce_cap = |w: &mut World<T>, emit: &mut dyn FnMut(&Value)| {
+        if let Some(cap) = linkcap {
+            for a in 0..n as Addr {
+                for b in 0..n as Addr {
+                    while a != b && w.net.borrow().in_flight(a, b) > cap {
+                        emit(&w.step(&json!({"a":"drop","from":a,"to":b,"k":0})));
+                    }
+                }
+            }
+        }
+    };
     for s in steps {
         let a = s["a"].as_str().unwrap_or("");
-        if a == "end" || a == "cfg" {
+        if a == "end" || a == "cfg" || a == "nop" {
             continue;
         }
-        // replay refers to packets by id when present (ids are deterministic)
+        if a == "sync" {
+            for _round in 0..200 {
+                for p in 0..n {
+                    emit(&w.step(&json!({"a":"poll","p":p})));
+                    w.net.borrow_mut().tx_ids.clear();
+                }
+                let mut moved = false;
+                for x in 0..n as Addr {
+                    for y in 0..n as Addr {
+                        while x != y && w.net.borrow().in_flight(x, y) > 0 {
+                            emit(&w.step(&json!({"a":"dlv","from":x,"to":y,"k":0})));
+                            moved = true;
+                        }
+                    }
+                }
+                let all_running = (0..n).all(|p| match &w.peers[p].sess {
+                    crate::world::Sess::P2P(s) => s.current_state() == ggrs::SessionState::Running,
+                    crate::world::Sess::Spec(s) => s.current_state() == ggrs::SessionState::Running,
+                });
+                if all_running && !moved {
+                    break;
+                }
+            }
+            for p in 0..n {
+                emit(&w.step(&json!({"a":"ev","p":p})));
+            }
+            continue;
+        }
         let l = w.step(s);
         w.net.borrow_mut().tx_ids.clear();
         emit(&l);
+        enforce_cap(&mut w, emit);
     }
     emit(&json!({"a":"end","t":w.now()}));
     Ok(())
